@@ -9,6 +9,7 @@ writers (`Circuit.abort` and the `except` clause of `run_forever`) in the order 
 -/
 import EdzedModel.ErrorReg
 import EdzedProofs.ErrorReg
+import EdzedModel.Gen.TranslatedSim
 
 namespace Edzed.ErrorReg
 
@@ -241,3 +242,27 @@ example :
     s.error = some (.cancelled 1) ∧ s.phase = .done ∧ runRaises s 3 = some (.exc 7) := by decide
 
 end Edzed.ErrorReg
+
+/-! ### the translation tie: `Circuit.abort` -/
+namespace Edzed.TrTie
+open Edzed.ErrorReg Edzed.Gen.TrS
+
+/-- what the code sees of the model state: `_error`, `_simtask`, `_simtask.done()` -/
+def abortView (s : St) : List Prim :=
+  abortActs (s.error.map fun _ => ()) (if s.phase == .notStarted then none else some ()) (s.phase == .done)
+
+/-- `self._error = exc` is executed exactly when no error was recorded before: the first error wins -/
+theorem translated_abort_sets_error_iff_first (s : St) :
+    (Prim.setError ∈ abortView s) ↔ s.error = none := by
+  unfold abortView abortActs
+  cases s.error <;> cases hp : s.phase <;> simp
+
+/-- the model's `abort` IS the translated one: the recorded error afterwards, and the request to cancel
+    the simulation task (made iff the error was recorded now and the task exists and is not finished) -/
+theorem translated_abort_is_model (s : St) (e : Err) :
+    (s.abort e).error = (if Prim.setError ∈ abortView s then some e else s.error)
+    ∧ (s.abort e).mustCancel = (s.mustCancel || decide (Prim.cancelTask ∈ abortView s)) := by
+  unfold abortView abortActs St.abort St.addWake
+  cases he : s.error <;> cases hp : s.phase <;> simp [he] <;> (try split) <;> simp
+
+end Edzed.TrTie
